@@ -227,25 +227,33 @@ impl AsCborValue for Header {
 
     fn to_cbor_value(mut self) -> Result<Value> {
         let mut map = Vec::<(Value, Value)>::new();
+        let mut seen = BTreeSet::new();
         if let Some(alg) = self.alg {
             map.push((ALG.to_cbor_value()?, alg.to_cbor_value()?));
+            seen.insert(ALG);
         }
         if !self.crit.is_empty() {
             map.push((CRIT.to_cbor_value()?, to_cbor_array(self.crit)?));
+            seen.insert(CRIT);
         }
         if let Some(content_type) = self.content_type {
             map.push((CONTENT_TYPE.to_cbor_value()?, content_type.to_cbor_value()?));
+            seen.insert(CONTENT_TYPE);
         }
         if !self.key_id.is_empty() {
             map.push((KID.to_cbor_value()?, Value::Bytes(self.key_id)));
+            seen.insert(KID);
         }
         if !self.iv.is_empty() {
             map.push((IV.to_cbor_value()?, Value::Bytes(self.iv)));
+            seen.insert(IV);
         }
         if !self.partial_iv.is_empty() {
             map.push((PARTIAL_IV.to_cbor_value()?, Value::Bytes(self.partial_iv)));
+            seen.insert(PARTIAL_IV);
         }
         if !self.counter_signatures.is_empty() {
+            seen.insert(COUNTER_SIG);
             if self.counter_signatures.len() == 1 {
                 // A single counter signature is encoded differently.
                 map.push((
@@ -259,7 +267,6 @@ impl AsCborValue for Header {
                 ));
             }
         }
-        let mut seen = BTreeSet::new();
         for (label, value) in self.rest.into_iter() {
             if seen.contains(&label) {
                 return Err(CoseError::DuplicateMapKey);
